@@ -264,7 +264,7 @@ func jlStream(seed uint64, tier string, outDir string, props map[string]bool, fo
 		rb := runJl(bin, mkdir("b"), []string{"-t", inline}, stdin)
 		// (c) inline with an unrelated file present: the inline template replaces it entirely
 		dc := mkdir("c")
-		os.WriteFile(filepath.Join(dc, "row.yml"), []byte("columns:\n  - name: \"zzz\"\n    input: \"numeric\"\n    output: \"hidden\"\n  - name: \""+cols[0].name+"\"\n    input: \"binary(int8)\"\n    output: \"binary(int8)\"\n"), 0o644)
+		os.WriteFile(filepath.Join(dc, "row.yml"), []byte("columns:\n  - name: \"zzz\"\n    input: \"numeric\"\n    output: \"string\"\n  - name: \"zzy\"\n    input: \"hidden\"\n    output: \"hidden\"\n  - name: \""+cols[0].name+"\"\n    input: \"binary(int8)\"\n    output: \"binary(int8)\"\n"), 0o644)
 		rc := runJl(bin, dc, []string{"-t", inline}, stdin)
 		// (c') an empty or comment-only row.yml is no definition at all: the inline template alone decides
 		if i%4 == 0 {
